@@ -204,6 +204,7 @@ def run_shard(spec, tier, seed, budget_s):
     nst = {'quick': 3, 'thorough': 5}[tier]
     target = {'quick': 200, 'thorough': 4000}[tier]
     k = 0
+    prev_text = None
     with monitors.ReachMonitor() as reach:
         while k < target and not sh.out_of_time():
             k += 1
@@ -224,6 +225,23 @@ def run_shard(spec, tier, seed, budget_s):
                     sh.violation('parse', f'rejected:{cls}@{suite}', f'{cls}: {err}', case, {'suite': suite})
                     continue
                 check_identity(sh, doc, db, suite, dict(case))
+                # two parser objects alive at once, the later one parsed first: the graph of the earlier one is still its own
+                if s == 0 and prev_text is not None and rng.random() < 0.3:
+                    from pv.common import parser_class
+                    cls_ = parser_class()
+                    if cls_ is not None:
+                        try:
+                            pa, pb = cls_(text), cls_(prev_text)
+                            pb.parse()
+                            dba = pa.parse()
+                        except Exception as e:  # noqa
+                            cls2, where2 = monitors.classify_exc(e)
+                            sh.violation('parse', f'rejected:{cls2}@two-live-parsers', f'{cls2}: {e}', case, {'suite': 'two-live-parsers'})
+                        else:
+                            sh.count('obs.docs.two-live-parsers')
+                            check_identity(sh, doc, dba, 'two-live-parsers', dict(case))
+                if s == 0:
+                    prev_text = text
     for k2, v in reach.counts.items():
         if k2.startswith('parser.') or k2.startswith('database'):
             sh.count('reach.' + k2, v)
